@@ -13,6 +13,13 @@ from .. import common, tlc
 from ..dilmid import DilMidWorld, reactor, Ping, Pong
 from ..mbworld import machine_state
 
+def C(**kw):
+    """constants of DilationTimer.tla (back-pressure on the Leader's side is off unless a configuration turns it on)"""
+    d = dict(MaxPause=0)
+    d.update(kw)
+    return d
+
+
 OBS_NAMES = ["ResponsiveNeverDropped", "SilentDropped", "DroppedWithinThree", "NoTimerWithoutConn", "OneTimer", "NoInternal", "Monitored"]
 
 
@@ -30,6 +37,8 @@ class TimerRun:
         self.pings = []          # [conn, sent, answered, lost, ping_id]
         self.dropped = []        # [conn, at]
         self.stopping = False
+        self.lp = None           # a subchannel protocol on the Leader's side (opened at the first AppPause)
+        self.hold = False        # the harness's own account: is the Leader's application asking for a pause?
         self.conn_no = 0
         self.gen_conn = {}       # FakeL2 generation -> connection number
         self.schedule = []
@@ -93,6 +102,19 @@ class TimerRun:
                 # a record that is not a pong reaches the Leader on the connection in use
                 from ..dilmid import Ack
                 self.L.m.got_record(Ack(0))
+            elif a == "AppPause":
+                if self.lp is None:
+                    w.listen("F", "p")
+                    self.lp = w.open("L", "p")
+                self.lp.transport.pauseProducing()
+                self.hold = True
+            elif a == "AppResume":
+                self.lp.transport.resumeProducing()
+                self.hold = False
+                # what waited in the socket is read now - unless the Leader has told this transport to go away (Twisted stops
+                # reading at loseConnection())
+                while self.L.conn is not None and not self.L.conn.closing and w.deliver("F"):
+                    pass
             elif a == "ConnLost":
                 w.cut()
                 w.observe_loss("L")
@@ -113,7 +135,7 @@ class TimerRun:
         for n in new:
             if a != "Stop":
                 # which connection disconnect() was really called on
-                self.dropped.append({"conn": self.gen_conn.get(n[2], 0), "at": int(reactor.seconds())})
+                self.dropped.append({"conn": self.gen_conn.get(n[2], 0), "at": int(reactor.seconds()), "held": bool(self.hold)})
 
     def projection(self):
         t = self.L.m._timer
@@ -150,6 +172,7 @@ def replay_behaviour(tid, states, interval):
            "pings": [{"conn": p["conn"], "sent": p["sent"], "answered": p["answered"], "lost": p["lost"]} for p in run.pings],
            "dropped": run.dropped, "timer": run.projection()["timer"], "maxTimers": timers_max, "snaps": snaps,
            "internal": run.errors + [repr(e)[:100] for e in run.w.logged] + [repr(e)[:100] for s_ in run.w.sides.values() for e in s_.errors]}
+    rec["appHoldsPause"] = any(d.get("held") for d in run.dropped)
     run.w.close()
     return run, rec, drift
 
@@ -159,7 +182,7 @@ T_PROJ = ("[tt |-> tt, timer |-> timer, conn |-> conn, "
           "dropped |-> [i \\in 1..Len(dropped) |-> <<dropped[i].conn, dropped[i].at>>]]")
 
 
-def real_enabled(run, interval, horizon, max_conns, stopped):
+def real_enabled(run, interval, horizon, max_conns, stopped, max_pause=0):
     """Environment actions the *real* objects offer right now (the walk does not consult the model)."""
     now = int(reactor.seconds())
     acts = []
@@ -181,6 +204,11 @@ def real_enabled(run, interval, horizon, max_conns, stopped):
         acts += [("ConnMade", run.conn_no + 1)] * 2
     if not stopped:
         acts.append(("Stop", now))
+    if max_pause and not due:
+        if run.hold:
+            acts += [("AppResume", now)] * 2
+        elif run.live and not stopped and getattr(run, "npause", 0) < max_pause:
+            acts += [("AppPause", now)] * 2
     return acts
 
 
@@ -279,7 +307,7 @@ def paused_gap_case(tid, interval, how, opener, intervals=6):
     return run, rec
 
 
-def real_walk(tid, interval, rng, horizon, max_conns, nsteps=40, script=None, policy=None):
+def real_walk(tid, interval, rng, horizon, max_conns, nsteps=40, script=None, policy=None, max_pause=0):
     """Code -> spec: a seeded random walk over what the real Leader Manager + TrafficTimer can do, recorded step by step
     (action + projection) for validation against DilationTimer.tla, and judged by the observer like every other run."""
     run = TimerRun(interval, throttle=[(), ("L",), ("F",), ("L", "F")][tid % 4])
@@ -287,7 +315,7 @@ def real_walk(tid, interval, rng, horizon, max_conns, nsteps=40, script=None, po
     lines, snaps = [], []
     timers_max = 0
     for step in range(len(script) if script is not None else nsteps):
-        acts = real_enabled(run, interval, horizon, max_conns, stopped)
+        acts = real_enabled(run, interval, horizon, max_conns, stopped, max_pause)
         if not acts:
             break
         if policy is not None:
@@ -303,6 +331,8 @@ def real_walk(tid, interval, rng, horizon, max_conns, nsteps=40, script=None, po
         run.do(la)
         if la[0] == "Stop":
             stopped = True
+        if la[0] == "AppPause":
+            run.npause = getattr(run, "npause", 0) + 1
         timers_max = max(timers_max, len(run._timer_calls()))
         pr = run.projection()
         lines.append({"a": list(la), "proj": pr})
@@ -311,6 +341,7 @@ def real_walk(tid, interval, rng, horizon, max_conns, nsteps=40, script=None, po
            "pings": [{"conn": p["conn"], "sent": p["sent"], "answered": p["answered"], "lost": p["lost"]} for p in run.pings],
            "dropped": run.dropped, "timer": run.projection()["timer"], "maxTimers": timers_max, "snaps": snaps,
            "internal": run.errors + [repr(e)[:100] for e in run.w.logged] + [repr(e)[:100] for s_ in run.w.sides.values() for e in s_.errors]}
+    rec["appHoldsPause"] = any(d.get("held") for d in run.dropped)
     run.w.close()
     return run, rec, lines
 
@@ -403,12 +434,15 @@ def run(prop, tier):
     with common.Workdir(prop) as wd:
         wd.gen_tables()
         cov["tables"] = wd.tables_info
-        cfgs = {"I2": dict(I=2, Horizon=10, MaxConns=2), "I3": dict(I=3, Horizon=12, MaxConns=2)}
+        # (I2p: an application on the Leader's side may pause a subchannel - back-pressure stops the reading of the peer connection;
+        # the statement's "never drops a responsive one" is then kept only while nobody holds a pause: known finding, DESIGN 7.4)
+        INVP = ["ResponsiveNeverDroppedUnlessHeld"] + INV[1:]
+        cfgs = {"I2": C(I=2, Horizon=10, MaxConns=2), "I3": C(I=3, Horizon=12, MaxConns=2), "I2p": C(I=2, Horizon=9, MaxConns=2, MaxPause=1)}
         if not quick:
-            cfgs["I5"] = dict(I=5, Horizon=22, MaxConns=3)
+            cfgs["I5"] = C(I=5, Horizon=22, MaxConns=3)
         for name, consts in cfgs.items():
             m = "MC_C16_" + name
-            common.write_model(wd, m, "DilationTimer", consts, invariants=INV)
+            common.write_model(wd, m, "DilationTimer", consts, invariants=INVP if consts["MaxPause"] else INV)
             r = tlc.run(m + ".tla", m + ".cfg", cwd=wd.path, timeout=2400)
             cov["tlc_configs"][name] = {"distinct_states": r.distinct, "states_generated": r.generated, "depth": r.depth,
                                         "wall_s": round(r.wall, 1), "result": "ok" if r.ok else (r.violated or "error")}
@@ -448,7 +482,7 @@ def run(prop, tier):
             "lost_while_ping_unanswered_then_reconnected": 'conn = 2 /\\ \\E k \\in Sent(1) : pings[k].answered = 0 /\\ Len(dropped) = 0',
             "lost_right_after_pong_then_reconnected": 'conn = 2 /\\ Answered(1) # {} /\\ Len(dropped) = 0 /\\ timer > 0',
         }
-        for name, consts in (("I2", dict(I=2, Horizon=16, MaxConns=3)), ("I3", dict(I=3, Horizon=20, MaxConns=3))):
+        for name, consts in (("I2", C(I=2, Horizon=16, MaxConns=3)), ("I3", C(I=3, Horizon=20, MaxConns=3))):
             wit, unreached = common.witnesses(wd, "DilationTimer", consts, goals, "MC_C16_goal_" + name)
             cov.setdefault("witness_goals", {})[name] = {"reached": [g for g, _ in wit], "unreached": unreached}
             for g, tr in wit:
@@ -461,16 +495,33 @@ def run(prop, tier):
                     ndrift += 1
                     if len(cov["drift"]) < 6:
                         cov["drift"].append(dict(drift, tid=tid, config=name, goal=g))
+        # the model reproduces the known finding: a shortest behaviour in which a responsive connection is dropped (it holds a pause),
+        # replayed on the real Manager like every other witness
+        pconsts = C(I=2, Horizon=12, MaxConns=2, MaxPause=1)
+        wit, unreached = common.witnesses(wd, "DilationTimer", pconsts, {"responsive_dropped_while_held": "~ResponsiveNeverDropped"}, "MC_C16_goalp")
+        cov["witness_goals"]["I2p"] = {"reached": [g for g, _ in wit], "unreached": unreached}
+        for g, tr in wit:
+            tid += 1
+            run_, rec, drift = replay_behaviour(tid, tr, 2)
+            rec["origin"], rec["config"] = "tlc-witness:" + g, "I2p"
+            records.append(rec)
+            meta[tid] = {"schedule": run_.schedule, "I": 2}
+            if drift:
+                ndrift += 1
+                if len(cov["drift"]) < 6:
+                    cov["drift"].append(dict(drift, tid=tid, config="I2p", goal=g))
         # code -> spec: seeded random walks over the real objects, validated by TLC against DilationTimer.tla
         rng = random.Random(seed * 7919 + 16)
         tv = {"walks": 0, "accepted": 0, "rejected": []}
-        for name, consts in (("I2", dict(I=2, Horizon=30, MaxConns=4)), ("I3", dict(I=3, Horizon=36, MaxConns=4))):
+        for name, consts in (("I2", C(I=2, Horizon=30, MaxConns=4)), ("I3", C(I=3, Horizon=36, MaxConns=4)),
+                             ("I2p", C(I=2, Horizon=30, MaxConns=4, MaxPause=4))):
             traces = {}
             scripts = [half_open_script(consts["I"], 5, k, af) for k in (1, 2) for af in (False, True)]
             for wn in range((40 if quick else 400) + len(scripts)):
                 tid += 1
                 script = scripts[wn] if wn < len(scripts) else None
-                run_, rec, lines = real_walk(tid, consts["I"], rng, consts["Horizon"], consts["MaxConns"], script=script)
+                run_, rec, lines = real_walk(tid, consts["I"], rng, consts["Horizon"], consts["MaxConns"], script=script,
+                                             max_pause=consts["MaxPause"])
                 rec["origin"], rec["config"] = ("real-walk" if script is None else "half-open"), name
                 records.append(rec)
                 meta[tid] = {"schedule": run_.schedule, "I": consts["I"], "throttle": list(run_.throttle)}
@@ -478,7 +529,7 @@ def run(prop, tier):
             # long histories: many generations on one Manager (whatever a Manager keeps from one connection to the next - ping
             # bookkeeping, timers, the monitor's state - has had time to pile up); the model's bounds are widened for these traces
             if name == "I2":
-                gconsts = dict(I=2, Horizon=70, MaxConns=9)
+                gconsts = C(I=2, Horizon=70, MaxConns=9)
                 gtraces = {}
                 for silent_first in (0, 1, 2, 3):
                     tid += 1
